@@ -146,6 +146,39 @@ theorem from_str_both (canon : List Char → Option Nat)
     refine ⟨s, hs, ?_⟩
     simp [fromStr, hcanon s (encode_length n h s hs), hd]
 
+/-- what `uuid_from_str` accepts, exactly: whatever the trusted `uuid.UUID(str)` (`canon`, an
+arbitrary function here) reads, and otherwise what `uuid_from_short_str` reads. No hypothesis on
+`canon`: the real `uuid.UUID` also reads `'0000000_0000…'`, `' 00…0a'`, `'+0…0a\n'`, non-ASCII digits. -/
+theorem from_str_ok_iff (canon : List Char → Option Nat) (s : List Char) (n : Nat) :
+    fromStr canon al len s = .ok n ↔
+      canon s = some n ∨ (canon s = none ∧ decode al len s = .ok n) := by
+  unfold fromStr
+  cases hc : canon s with
+  | none => simp
+  | some m => simp
+
+/-- rejection by `uuid_from_str` is *relative to the trusted `uuid.UUID`*: a string is rejected
+(with `ValueError`) exactly when `uuid.UUID(str)` rejects it and `uuid_from_short_str` rejects it
+(the latter set is described exactly by `reject`). -/
+theorem from_str_reject (canon : List Char → Option Nat) (s : List Char) :
+    fromStr canon al len s = .error .valueError ↔
+      canon s = none ∧ decode al len s = .error .valueError := by
+  unfold fromStr
+  cases hc : canon s with
+  | none => simp
+  | some m => simp
+
+/-- `uuid_from_str` is total: a number or `ValueError`, nothing else, whatever `canon` is -/
+theorem from_str_total (canon : List Char → Option Nat) (s : List Char) :
+    (∃ n, fromStr canon al len s = .ok n) ∨ fromStr canon al len s = .error .valueError := by
+  unfold fromStr
+  cases hc : canon s with
+  | some m => exact Or.inl ⟨m, rfl⟩
+  | none =>
+    rcases decode_total s with ⟨n, h, _⟩ | h
+    · exact Or.inl ⟨n, h⟩
+    · exact Or.inr h
+
 /-! Non-vacuity: the docstring's example, and a rejected overflow value, evaluated by the kernel. -/
 example : encode al len 0xde22bbe043bf448d9b832ee57e663285 = some "hfDoPxAatD8tiFaSAL3oXh".toList := by
   decide +kernel
